@@ -57,9 +57,9 @@ ValidSchemes == {0, 1, 2}
 
 RECURSIVE SumTo(_, _)
 SumTo(f, n) == IF n = 0 THEN 0 ELSE f[n] + SumTo(f, n - 1)
-RECURSIVE PrefixAcc(_, _, _, _)
-PrefixAcc(f, i, acc, out) == IF i > Len(f) THEN out ELSE PrefixAcc(f, i + 1, acc + f[i], Append(out, acc + f[i]))
-Prefix(f) == PrefixAcc(f, 1, 0, <<>>)          \* <<f[1], f[1] + f[2], ...>>
+SX == INSTANCE SequencesExt
+\* <<f[1], f[1] + f[2], ...>> (a left fold: linear, also for the thousands of chunks of a recorded xorb)
+Prefix(f) == SX!FoldLeft(LAMBDA out, v : Append(out, (IF out = <<>> THEN 0 ELSE out[Len(out)]) + v), <<>>, f)
 \* the same, as a local recurrence (linear; used on recorded arrays)
 IsPrefix(b, f) == Len(b) = Len(f) /\ \A i \in 1..Len(f) : b[i] = (IF i = 1 THEN 0 ELSE b[i - 1]) + f[i]
 
@@ -376,8 +376,7 @@ ReadRange(a, b, boff, ids, ulen) ==
   /\ phase = "built" /\ kind = "v1"
   /\ 0 <= a /\ a < b /\ b <= Len(xorb)
   /\ boff = ByteOffset(obj, a, b)
-  /\ ids = SubSeq(Ids(xorb), a + 1, b)
-  /\ ids = GetRange(obj, a, b)
+  /\ ids = SubSeq(Ids(xorb), a + 1, b)          \* = GetRange(obj, a, b) on every built object: invariant RoundTrip
   /\ ulen = UncompressedRangeLen(obj, a, b)
   /\ UNCHANGED vars
 \* deserialize_chunks (sync / async reader / stream) on the physical bytes of chunks [a, b):
